@@ -25,7 +25,7 @@ TRUSTED_BASE = [
 ASSUMPTIONS = ["exact arithmetic", "freedom of the property applied in judge(): cells above max_dist may be inf or "
                "any value above the bound; with psi_neg the cells beyond an optimal end cell are -1"]
 RULE = ("random series x window x penalty x psi x max_step x max_dist x inner_dist x keep_int_repr x psi_neg x "
-        "site in {py.wps, c.wps (full), c.wps_compact + dtw_expand_wps + random dtw_expand_wps_slice (ctypes)}; "
+        "site in {py.wps (value, every cell and the -1 marks exact vs the as-written models), c.wps (full), c.wps_compact (every slot of the compact array exact vs the extracted model of the C fill loops, content judged through the layout) + dtw_expand_wps + random dtw_expand_wps_slice (ctypes)}; "
         "non-trivial = band strict subset or psi/penalty/max_step/max_dist active")
 GUARD = "lengths>=1, window None or >=1, penalty>=0, non-degenerate psi"
 
